@@ -155,7 +155,8 @@ def replay(case):
         else:
             from xml.sax.saxutils import escape, quoteattr
             body = u'<m:msg xmlns:m="%s" a=%s>%s<m:in>x</m:in>%s</m:msg>' % (NS_M, quoteattr(text.replace('\n', ' ')), escape(text), escape(text))
-            msg = (u'<?xml version="1.0" encoding="UTF-8"?>\n' if scn['decl'] else u'') + body
+            msg = {'none': u'', 'tool': u'<?xml version="1.0" encoding="UTF-8"?>\n', 'short': u'<?xml version="1.0"?>\n',
+                   'standalone': u"<?xml version='1.0' encoding='utf-8' standalone='yes'?>\n"}[scn['decl']] + body
             for bname in ('soap', 'paos'):
                 info = ent.apply_binding(B[bname], msg, dest)
                 data = info['data']
